@@ -36,7 +36,7 @@ ASSUMPTIONS = [
 ]
 
 CLASSES = ["Gaussian", "Exponential", "Matern", "Integral", "Stable", "Spherical", "Cubic", "TPLGaussian"]
-VARIANTS = ["simple", "ordinary", "universal", "extdrift", "detrended"]
+VARIANTS = ["simple", "ordinary", "universal", "extdrift", "detrended", "regional_ext"]  # regional_ext: linear drift functions + one external drift (base class only)
 
 
 def _drift_ext(pos):
@@ -85,11 +85,13 @@ def mk_krige(model, cfg, cond_pos, cond_val):
         return gs.krige.ExtDrift(model, cond_pos, cond_val, _drift_ext(cond_pos), normalizer=norm, trend=trend, **ex)
     if v == "detrended":
         return gs.krige.Detrended(model, cond_pos, cond_val, _trend_fn(dim), **ex)
+    if v == "regional_ext":
+        return gs.Krige(model, cond_pos, cond_val, drift_functions="linear", ext_drift=_drift_ext(cond_pos), normalizer=norm, trend=trend, **ex)
     raise common.HarnessError(v)
 
 
 def call_kwargs(cfg, pos):
-    if cfg["variant"] == "extdrift":
+    if cfg["variant"] in ("extdrift", "regional_ext"):
         return {"ext_drift": _drift_ext(pos)}
     return {}
 
@@ -121,12 +123,15 @@ def oracle_field(spec, cfg, cond_pos, cond_val, pos, seed, mode_no, model):
     z = z - mu_c
     ic = okr.iso_positions(spec, cond_pos)
     it = okr.iso_positions(spec, pos)
-    unbiased = v in ("ordinary", "universal", "extdrift")
+    unbiased = v in ("ordinary", "universal", "extdrift", "regional_ext")
     dc = dt = None
     if v == "universal":
         dc, dt = cond_pos, pos
     elif v == "extdrift":
         dc, dt = _drift_ext(cond_pos)[None, :], _drift_ext(pos)[None, :]
+    elif v == "regional_ext":
+        dc = np.vstack([cond_pos, _drift_ext(cond_pos)[None, :]])
+        dt = np.vstack([pos, _drift_ext(pos)[None, :]])
     est, kvar, cnd, _ = okr.krige(
         model.covariance, spec["var"] + spec["nugget"], spec["var"], ic, it, z,
         err=spec["nugget"], unbiased=unbiased, drift_cond=dc, drift_tgt=dt,
@@ -185,6 +190,8 @@ def _valid_layout(case):
         return n >= dim + 2
     if case["cfg"]["variant"] == "extdrift":
         return n >= 3
+    if case["cfg"]["variant"] == "regional_ext":
+        return n >= dim + 3
     return True
 
 
@@ -268,7 +275,7 @@ def check_input(case, rec):
             f"far from the data the conditioned field is not mean + unconditional field (deviation {err_f:.3g})",
             dict(tags, kind="far_field"),
         )
-    if case["struct"] and cfg["variant"] != "extdrift":
+    if case["struct"] and cfg["variant"] not in ("extdrift", "regional_ext"):
         axes = [np.unique(np.round(tgt[i], 6)) for i in range(dim)]
         grid = np.array(np.meshgrid(*axes, indexing="ij")).reshape(dim, -1)
         with quiet():
@@ -434,7 +441,7 @@ def check_history(case, rec):
                 elif k == "mesh_switch":
                     # the convenience methods on the same coordinate arrays: point list, then the grid spanned by the same
                     # (equal-length) axes, then the point list again - every result equals the one of a fresh object
-                    if cfg["variant"] == "extdrift":
+                    if cfg["variant"] in ("extdrift", "regional_ext"):
                         continue
                     P = caller_pos if pos_set else cur_pos
                     axes = [np.array(P[i]) for i in range(dim)]
@@ -472,7 +479,7 @@ def check_history(case, rec):
                     pos_set = True
                 elif k == "new_values":
                     cond_val = np.array(op["vals"], dtype=float)
-                    ed = _drift_ext(cond_pos) if cfg["variant"] == "extdrift" else None
+                    ed = _drift_ext(cond_pos) if cfg["variant"] in ("extdrift", "regional_ext") else None
                     u_cp, u_cv = cond_pos.copy(), cond_val.copy()
                     krige.set_condition(u_cp, u_cv, ed)
                 elif k == "scribble_cond":
@@ -482,7 +489,7 @@ def check_history(case, rec):
                 elif k == "new_cond":
                     cond_pos = cond_pos + np.array(op["shift"])[:, None]
                     cond_val = np.array(op["vals"], dtype=float)
-                    ed = _drift_ext(cond_pos) if cfg["variant"] == "extdrift" else None
+                    ed = _drift_ext(cond_pos) if cfg["variant"] in ("extdrift", "regional_ext") else None
                     u_cp, u_cv = cond_pos.copy(), cond_val.copy()
                     krige.set_condition(u_cp, u_cv, ed)
                 elif k == "model_inplace":
